@@ -8,6 +8,8 @@ Streams (model = Model/C01.v evaluated by vm_compute; impl = the real aiocoap ob
   ext_field     _read_extended_field_value / _write_extended_field_value vs Gen/options_ext.v
   value         OptionNumber(n).create_option(decode=raw), option.encode() vs create_option_decode / option_encode
   utf8          bytes.decode("utf-8") / str.encode("utf-8") vs Model/C01Utf8.v
+  transport     GenericMessageInterface._received_datagram (generic_udp.py:31-38) on mutants: oracle only — the datagram is dispatched
+                or logged and dropped, nothing is raised (the anchors "transports drop only UnparsableMessage")
 The oracle is an independent reading of RFC 7252 section 3 / RFC 3629 written in this file (rfc_* functions below).
 """
 import struct
@@ -460,7 +462,7 @@ def view_to_message(v):
 class C01(fw.Property):
     id = "C01"
     coq_props = "Props/C01.v"
-    gen_jobs = ["options_ext", "optiontypes_min", "optnum_table"]
+    gen_jobs = ["options_ext", "optiontypes_min", "optnum_table", "decode_handlers"]
     model_imports = ["Verif.Gen.options_ext", "Verif.Gen.optiontypes_min", "Verif.Gen.optnum_table", "Verif.Model.C01Types",
                      "Verif.Model.C01Utf8", "Verif.Model.C01", "Verif.Model.C01Rfc"]
     quick_budget = 480
@@ -476,7 +478,7 @@ class C01(fw.Property):
             "randomly mutated ones, random bytes, hand-written boundary datagrams; decode_mut = every single-byte substitution (0x00/0xFF/+-1/bit flips; all 255 values "
             "in decode_oracle), truncation, one-byte insertion (13 values) and deletion of 9 seed datagrams (sampled through the model in quick, all of them in thorough); "
             "decode_oracle = the same mutants and more random ones through implementation + oracle only; ext_field / value / utf8 = kernels vs translated code and "
-            "value codecs. Non-trivial = encode: at least one option; decode*: header accepted (>= 4 bytes, version 1); kernels: all. Distinct by full input.")
+            "value codecs; transport = hand-written datagrams and every 7th mutant through GenericMessageInterface._received_datagram (oracle only). Non-trivial = encode: at least one option; decode*: header accepted (>= 4 bytes, version 1); kernels: all. Distinct by full input.")
     trusted_base = ["translator translate/py2v.py + Lib/Py.v prelude and the data-extraction job translate/jobs/c01.py (validated by the ext_field / value streams)",
                     "hand-written Model/C01.v (Options.decode/encode, Message.decode/encode, value codecs) — validated by the encode/decode/decode_mut streams",
                     "Model/C01Utf8.v stands for CPython's UTF-8 codec (validated by the utf8 stream)",
@@ -532,6 +534,7 @@ class C01(fw.Property):
         else:
             for d in rng.sample(allm, min(n_mut, len(allm))): yield "decode_mut", {"data": d}
         for d in allm: yield "decode_oracle", {"data": d}
+        for d in hand + allm[::7]: yield "transport", {"data": d}
         # all 255 substitutions: two seeds in quick, the nine fixed seeds (first 64 bytes) in thorough
         for sd in (seeds[:9] if thorough else [seeds[1], seeds[4]]):
             for i, b in enumerate(sd[:64]):
@@ -606,6 +609,22 @@ class C01(fw.Property):
             try: res["redecoded"] = msg_view(Message.decode(enc))
             except Exception as e: res["redecoded"] = exn(e)
             return res
+        if stream == "transport":
+            from aiocoap.transports.generic_udp import GenericMessageInterface
+            got = []; logged = []
+            class Mman:
+                def dispatch_message(self, m): got.append(msg_view(m))
+                def dispatch_error(self, e, a): got.append("error")
+            class Log:
+                def warning(self, *a, **k): logged.append("warning")
+                def info(self, *a, **k): logged.append("info")
+                debug = error = info
+            class MI(GenericMessageInterface):
+                async def recognize_remote(self, remote): return False
+            mi = MI(Mman(), Log(), None)
+            try: mi._received_datagram("peer", bytes(bx(inp["data"]))); raised = None
+            except Exception as e: raised = exn(e)
+            return {"dispatched": got, "logged": logged, "raised": raised}
         if stream == "ext_field":
             from aiocoap import options as o
             try:
@@ -680,6 +699,14 @@ class C01(fw.Property):
             return ("C01:crash:%s:%s" % (res["harness_exception"], res["where"]), "harness could not run the implementation: %s" % res["text"])
         if stream == "encode": return self.oracle_encode(inp, res)
         if stream in ("decode", "decode_mut", "decode_oracle"): return self.oracle_decode(inp, res)
+        if stream == "transport":
+            data = bytes(bx(inp["data"])); spec = rfc_parse(data)
+            if res["raised"] is not None: return ("C01:transport-exception:" + res["raised"][4:], "%s left _received_datagram on %s" % (res["raised"][4:], data[:40].hex()))
+            if len(res["dispatched"]) + len(res["logged"]) != 1: return ("C01:transport-not-exactly-one", "datagram %s: dispatched %d, logged %d" % (data[:40].hex(), len(res["dispatched"]), len(res["logged"])))
+            if spec is not None and spec != "not-utf8" and res["dispatched"] != [spec]:
+                return ("C01:transport-wellformed-not-dispatched", "well-formed datagram %s was not handed to the message manager as the RFC reads it" % data[:40].hex())
+            if spec == "not-utf8" and res["dispatched"]: return ("C01:invalid-utf8-accepted", "datagram %s dispatched although a string option is not UTF-8" % data[:40].hex())
+            return None
         if stream == "ext_field":
             v = inp["value"]
             if inp["op"] == "write":
@@ -762,7 +789,7 @@ class C01(fw.Property):
 
     def nontrivial(self, stream, inp, res):
         if stream == "encode": ok = len(inp["opts"]) > 0
-        elif stream.startswith("decode"):
+        elif stream.startswith("decode") or stream == "transport":
             d = bx(inp["data"]); ok = len(d) >= 4 and d[0] // 64 == 1
         else: ok = True
         return fw.jdump([stream, inp]) if ok else None
